@@ -235,30 +235,18 @@ Theorem part_witness : forall ballots parts, is_part ballots = Some parts -> par
 Proof. exact Proofs.Approval.part_witness. Qed.
 Print Assumptions part_witness.
 (* TwoPart = the text of the property: any two approval sets equal or disjoint, AT MOST two distinct ones
-   (none when there is no ballot), two distinct ones cover all alternatives.
-   FULL CLAUSE (false for the current code, see two_part_no_ballots_refuted):
-     forall alts ballots, (exists parts, is_2_part alts ballots = Some parts) <-> TwoPart alts ballots.
-   Proved: soundness for every profile, completeness for every profile with at least one ballot. *)
-Theorem two_part_sound : forall alts ballots parts,
-  is_2_part alts ballots = Some parts -> TwoPart alts ballots.
-Proof. exact Proofs.Approval.two_part_sound. Qed.
-Print Assumptions two_part_sound.
-Theorem two_part_correct : forall alts ballots, ballots <> [] ->
-  ((exists parts, is_2_part alts ballots = Some parts) <-> TwoPart alts ballots).
+   (none when there is no ballot), two distinct ones cover all alternatives.  Every profile. *)
+Theorem two_part_correct : forall alts ballots,
+  (exists parts, is_2_part alts ballots = Some parts) <-> TwoPart alts ballots.
 Proof. exact Proofs.Approval.two_part_correct. Qed.
 Print Assumptions two_part_correct.
 Theorem two_part_witness : forall alts ballots parts,
   is_2_part alts ballots = Some parts -> part2_check alts ballots parts = true.
 Proof. exact Proofs.Approval.two_part_witness. Qed.
 Print Assumptions two_part_witness.
-(* is_2_part answers False on the profile without ballots, although it has zero (<= 2) distinct approval sets *)
-Theorem two_part_no_ballots : forall alts, is_2_part alts [] = None.
+Theorem two_part_no_ballots : forall alts, is_2_part alts [] = Some [].
 Proof. exact Proofs.Approval.two_part_no_ballots. Qed.
 Print Assumptions two_part_no_ballots.
-Theorem two_part_no_ballots_refuted :
-  exists alts ballots, TwoPart alts ballots /\ is_2_part alts ballots = None.
-Proof. exact Proofs.Approval.two_part_no_ballots_refuted. Qed.
-Print Assumptions two_part_no_ballots_refuted.
 
 (* ---- the six recognisers built on the solver (mirrored, solver as a parameter): relative to a solver that
    answers like the verified reference and returns column orders accepted by the verified checker — which is
@@ -321,11 +309,61 @@ Theorem ref_solve_ok : solver_ok ref_solve.
 Proof. exact Proofs.Approval.ref_solve_ok. Qed.
 Print Assumptions ref_solve_ok.
 
+(* ---- solve_consecutive_ones and isC1P around reorder_sets (mirrored pre/post-processing): the contract the
+   PQ-tree code has to meet, and what follows from it for EVERY matrix (repeated / all-zero rows and columns) ---- *)
+(* SetsOK F res: res rearranges the family F and for every element the sets containing it are consecutive *)
+Theorem sets_check_correct : forall F res,
+  sets_check F res = true <->
+  Permutation F res /\ forall v, Interval (fun s => In v s) res.
+Proof. exact Proofs.C1P.sets_check_correct. Qed.
+Print Assumptions sets_check_correct.
+Theorem sets_decide_correct : forall F, sets_decide F = true <-> exists res, SetsOK F res.
+Proof. exact Proofs.C1P.sets_decide_correct. Qed.
+Print Assumptions sets_decide_correct.
+
+(* reorder_contract reorder := on every duplicate-free family F of ascending index tuples, reorder F = Some res
+   with SetsOK F res, or reorder F = None (ValueError) and no arrangement exists *)
+Theorem solve_model_correct : forall reorder, reorder_contract reorder -> forall rows nc,
+  match solve_model reorder rows nc with
+  | Some perm => c1p_check rows nc perm = true
+  | None => c1p_decide rows nc = false
+  end.
+Proof. exact Proofs.C1P.solve_model_correct. Qed.
+Print Assumptions solve_model_correct.
+
+Theorem isC1P_model_correct : forall reorder, reorder_contract reorder -> forall rows nc,
+  isC1P_model reorder rows nc = c1p_decide rows nc.
+Proof. exact Proofs.C1P.isC1P_model_correct. Qed.
+Print Assumptions isC1P_model_correct.
+
+(* hence the whole chain: contract of reorder_sets => every recogniser built on the mirrored solver *)
+Theorem solve_model_solver_ok : forall reorder, reorder_contract reorder -> solver_ok (solve_model reorder).
+Proof. intros reorder H M nc. exact (Proofs.C1P.solve_model_correct reorder H M nc). Qed.
+Print Assumptions solve_model_solver_ok.
+
+(* reorder_sets = "if len(sets) <= 2: return sets" + the PQ-tree: the contract only concerns the PQ-tree on
+   duplicate-free families of at least three ascending tuples *)
+Theorem reorder_sets_model_contract : forall pq_tree,
+  (forall F, 3 <= length F -> NoDup F -> Forall (Sorted.StronglySorted lt) F ->
+     match pq_tree F with Some res => SetsOK F res | None => forall res, ~ SetsOK F res end) ->
+  reorder_contract (reorder_sets_model pq_tree).
+Proof. exact Proofs.C1P.reorder_sets_model_contract. Qed.
+Print Assumptions reorder_sets_model_contract.
+
+(* the contract is satisfiable: the reference enumeration of arrangements *)
+Theorem ref_reorder_contract : reorder_contract (fun F => find (sets_check F) (perms F)).
+Proof. exact Proofs.C1P.ref_reorder_contract. Qed.
+Print Assumptions ref_reorder_contract.
+
 (* ---- non-vacuity ---- *)
 Example c1p_nonvacuous :
   c1p_decide [[true;false;true;false];[false;true;true;false];[false;false;false;false];[true;false;true;false]] 4 = true /\
   c1p_check [[true;false;true;false];[false;true;true;false];[false;false;false;false];[true;false;true;false]] 4 [0;2;1;3] = true /\
-  c1p_decide [[true;true;false];[false;true;true];[true;false;true]] 3 = false.
+  c1p_decide [[true;true;false];[false;true;true];[true;false;true]] 3 = false /\
+  (* the mirrored solver with the reference arrangement search, on a matrix with repeated and all-zero columns *)
+  solve_model (fun F => find (sets_check F) (perms F))
+    [[true;false;true;false;true];[false;false;true;false;false];[true;false;true;false;true]] 5 = Some [1;3;0;4;2] /\
+  isC1P_model (fun F => find (sets_check F) (perms F)) [[true;true;false];[false;true;true];[true;false;true]] 3 = false.
 Proof. repeat split; vm_compute; reflexivity. Qed.
 
 Example approval_nonvacuous :
